@@ -511,6 +511,32 @@ func (e *Env) Exec(op Op) (o Out) {
 		} else if old != nil {
 			delete(e.Writers, op.W)
 		}
+	case "upAttach":
+		// a further handle (slot W) on the session of slot O1, which stays open.
+		// Mode: 0 at the size the other handle reports; 1 offset -1; 2 offset size+N (wrong, N != 0)
+		src := e.Writers[int(op.O1)]
+		if src == nil || int(op.O1) == op.W {
+			o.Skipped = true
+			return
+		}
+		var off int64
+		switch op.Mode {
+		case 0:
+			off = src.W.Size()
+		case 1:
+			off = -1
+		case 2:
+			off = src.W.Size() + int64(op.N)
+		}
+		e.closeSlot(op.W)
+		delete(e.Writers, op.W)
+		w, err := reg.PushBlobChunkedResume(ctx, e.repo(src.Repo), src.ID, off, 0)
+		o.setErr(err)
+		o.WSize = off
+		if err == nil {
+			e.Writers[op.W] = &Writer{W: w, Repo: src.Repo, ID: w.ID(), Sum: append([]byte(nil), src.Sum...)}
+			o.ID, o.N = w.ID(), w.ChunkSize()
+		}
 	case "upWrite":
 		w := e.Writers[op.W]
 		if w == nil {
